@@ -437,7 +437,19 @@ def SliceIn.arg (t : SliceIn α) (i : Nat) : Except Err (DimDesc α × α × α 
         | none => if t.needFill then fillEnd d n else .error .stdOutOfRange
       match eR with
       | .error x => .error x
-      | .ok e => .ok (d, s, e, unit, if (t.ends[i]?).isSome then t.rm else RangeMatch.inclusive)
+      | .ok e =>
+        let rm := if (t.ends[i]?).isSome then t.rm else RangeMatch.inclusive
+        -- a filled-in start / end is in the dimension's unit, the given one in the caller's: for sampled and range
+        -- dimensions the given one is brought into the dimension's unit when the two units are scalable
+        let du := d.unitOrNone
+        let halfGiven := (t.starts[i]?).isSome != (t.ends[i]?).isSome && (t.units[i]?).isSome
+        let scalableKind := match d with | .sampled .. => true | .range .. => true | _ => false
+        if halfGiven && scalableKind && unit != "none" && du != "none" && unit != du then
+          match siScaling (α := α) unit du with
+          | some f =>
+            if (t.starts[i]?).isSome then .ok (d, mul s f, e, du, rm) else .ok (d, s, mul e f, du, rm)
+          | none => .ok (d, s, e, unit, rm)
+        else .ok (d, s, e, unit, rm)
 
 /-- `util::dataSlice(array, start, end, units, match)` -/
 def sliceRegion (t : SliceIn α) : Except Err (List Nat × List Nat) :=
